@@ -42,6 +42,8 @@ def expected(op, T):
         S = T.static(r, t)
         if isinstance(nb, (tuple, list)) and len(nb) == 2 and nb[0] == 'one':
             nb = [nb[1]]
+        if isinstance(nb, (tuple, list)) and len(nb) == 2 and nb[0] == 'iter':
+            nb = list(nb[1])
         ns = list(S) if nb is None else [n for n in nb if n in S]
         f = {'degree': S.degree, 'in_degree': getattr(S, 'in_degree', None), 'out_degree': getattr(S, 'out_degree', None)}[kind]
         loops = (not d) and any(S.has_edge(n, n) for n in ns)
